@@ -96,6 +96,11 @@ pub struct Recorder {
     pub n_probes: u32,
     /// how many hosts had a thread panic with the injected message
     pub crash_site: Option<(u32, CoordT, u32)>,
+    /// (host, failed) for every host whose `execute_blocking` has returned, in that order
+    pub exec_done: Vec<(u64, bool)>,
+    /// streaming crash jobs: the client gave up after feeding this many further elements after
+    /// the injected panic without any host reporting a failure
+    pub stream_gave_up: Option<u64>,
 }
 
 #[derive(Clone, Debug, Serialize, serde::Deserialize, PartialEq, Eq)]
